@@ -47,6 +47,12 @@ def main(argv):
             return 1
         print("replay did not reproduce the recorded violation")
         return 0
+    if cmd == "_digests":
+        import json
+        from . import selftest
+
+        print(json.dumps(selftest.digests(argv[1], int(argv[2]), int(argv[3]), int(argv[4]))))
+        return 0
     if cmd == "selftest-determinism":
         from . import selftest
 
